@@ -128,7 +128,12 @@ def oracleC06 (c : TCase) : Verdict :=
         match t.res with
         | "resp" :: _ :: st' :: _ :: hs =>
           if st' == "none" then { s with fail := some s!"complete head not parsed: {t.raw.take 100}" } else
-          let fr := framingOf (hdrsOfWords hs)
+          -- the framing fields are read off the bytes the server sent (grammar of C05), not off what the
+          -- implementation reports of them
+          let fields : List Hdr := match tryParseResponse 128 w with
+            | .ok (some (_, r)) => r.fields
+            | _ => hdrsOfWords hs
+          let fr := framingOf fields
           let verdict := rfcFraming (ver == 0) m status fr
           (match verdict with
            | .error _ => { s with fail := some s!"non-numeric Content-Length accepted: {t.raw.take 160}" }
